@@ -119,7 +119,8 @@ package hal
 //@ func (b *bytes.Buffer) Bytes() (p []byte)
 //@   trusted
 
-// probe: every entry of the list is probed, in list order; a driver is handed to onDriverInit
+// probe: every driver's log lines go to the sink that is current when the driver is initialised
+// (so once the terminal is linked, later drivers log to it); every entry of the list is probed, in list order; a driver is handed to onDriverInit
 // and appended to the active drivers exactly when its probe returned a driver and its
 // initialisation returned no error - in that order, once each
 //@ func probe(driverInfoList device.DriverInfoList)
@@ -128,6 +129,7 @@ package hal
 //@   requires forall(k, int, 0 <= k && k < len(driverInfoList) ==> driverInfoList[k] != nil)
 //@   modifies probes, probeLog, initCalls, initFails, inits, initLog, devices.activeConsole, devices.activeTTY, devices.activeDrivers, elems(device.Driver), links, attaches, attachT, attachC, stateSets, stateT, stateArg, kfmt.outputSink, kfmt.ringBuffer.rIndex, elems(uint8), kfmt.outLen, kfmt.out
 //@   at call Probe 1: ghost probeLog = upd(probeLog, probes, info.Order)
+//@   at call DriverInit 1: assert !isnil(kfmt.outputSink) ==> w.Sink == kfmt.outputSink
 //@   ensures all: probes == old(probes) + uintptr(len(driverInfoList)) && forall(k, int, 0 <= k && k < len(driverInfoList) ==> probeLog[old(probes) + uintptr(k)] == old(driverInfoList[k].Order))
 //@   ensures ok: inits - old(inits) == (initCalls - old(initCalls)) - (initFails - old(initFails))
 //@   ensures active: len(devices.activeDrivers) == old(len(devices.activeDrivers)) + int(inits - old(inits))
